@@ -46,6 +46,11 @@ Clauses(S, o) ==
      <<"singletons", o.single = SingletonsOf(S)>>,
      <<"empty", o.empty = EmptyOf(S)>>,
      <<"maximal", o.max = MaximalOf(S, FALSE)>>,
+     <<"subviews", LET b == o.sub IN Len(b) = 8 /\
+          /\ b[2] = Only(S.nodes, Range(b[1])) /\ b[3] = [k \in DOMAIN b[2] |-> Degree(S, b[2][k])]
+          /\ b[5] = Only(S.edges, Range(b[4])) /\ b[6] = [k \in DOMAIN b[5] |-> SizeOf(S, b[5][k])]
+          /\ Len(b[7]) = Len(b[5]) /\ (\A k \in DOMAIN b[5] : Range(b[7][k]) = S.e2n[b[5][k]])
+          /\ b[8] = <<Len(b[2]), Len(b[5])>>>>,
      <<"aggregates", o.agg = <<>> \/
           LET d == SeqDegree(S) IN
           /\ o.agg[1] = MaxOf(Range(d)) /\ o.agg[2] = MinOf(Range(d)) /\ o.agg[3] = SumSeq(d)
